@@ -19,11 +19,12 @@ CONSTANTS Endpoints,   \* set of <<route, method>> of the API that touch account
           Deviations
 
 VARIABLES trusted,  \* device keys trusted by account A: subset of {"k1","k2"}
+          revokedBy, \* how k2 was revoked: "-", "sync" (device-log merge) or "force" (update_account)
           acl,      \* current access configuration
           ver,      \* abstract version of A's server-side data
           last      \* [endpoint, cred, outcome] of the last request
 
-vars == <<trusted, acl, ver, last>>
+vars == <<trusted, revokedBy, acl, ver, last>>
 
 (* does the access configuration admit account A? *)
 AclAllows(c) ==
@@ -55,25 +56,28 @@ MayAccept(cred) ==
   /\ KeyOf(cred) \in trusted
   /\ SignedRequestBytes(cred)
 
-Init == /\ trusted = {"k1", "k2"} /\ acl \in Acls /\ ver = 0
+Init == /\ trusted = {"k1", "k2"} /\ revokedBy = "-" /\ acl \in Acls /\ ver = 0
         /\ last = [ep |-> <<"-", "-">>, cred |-> "-", out |-> "-"]
 
 Request(ep, cred) ==
   /\ last' = [ep |-> ep, cred |-> cred,
               out |-> IF MayAccept(cred) THEN "accepted" ELSE "refused"]
-  /\ UNCHANGED <<trusted, acl, ver>>     \* the replay only sends requests that do not edit
+  /\ UNCHANGED <<trusted, revokedBy, acl, ver>>   \* the replay only sends requests that do not edit
 
-(* device k2 is revoked (through a device-log sync signed by k1) *)
-Revoke == /\ "k2" \in trusted /\ trusted' = trusted \ {"k2"}
+(* device k2 is revoked by a request signed by k1: either a Revoke event   *)
+(* merged into the device log by a sync, or a forced update of the device  *)
+(* log (update_account) that no longer contains it                         *)
+Revoke(how) ==
+          /\ "k2" \in trusted /\ trusted' = trusted \ {"k2"} /\ revokedBy' = how
           /\ ver' = ver + 1
           /\ last' = [ep |-> <<"revoke", "-">>, cred |-> "valid", out |-> "accepted"]
           /\ UNCHANGED acl
 
-SetAcl(c) == /\ acl' = c /\ c # acl /\ UNCHANGED <<trusted, ver>>
+SetAcl(c) == /\ acl' = c /\ c # acl /\ UNCHANGED <<trusted, revokedBy, ver>>
              /\ last' = [ep |-> <<"config", "-">>, cred |-> "-", out |-> "-"]
 
 Next == \/ \E ep \in Endpoints, cred \in Creds : Request(ep, cred)
-        \/ Revoke
+        \/ \E how \in {"sync", "force"} : Revoke(how)
         \/ \E c \in Acls : SetAcl(c)
 
 Spec == Init /\ [][Next]_vars
